@@ -70,7 +70,8 @@ def lf_str(a):
     return ' + '.join(parts)
 
 
-_ENC = re.compile(r'\.encode\([^()]*\)(\(\))?$')
+# only single-byte encodings preserve the length of a str
+_ENC = re.compile(r"""\.encode\(['"](ascii|latin-1|latin1|iso-8859-1)['"]\)(\(\))?$""")
 
 
 def norm_len_desc(d):
@@ -79,8 +80,6 @@ def norm_len_desc(d):
     while prev != d:
         prev = d
         d = _ENC.sub('', d)
-        if d.endswith('.encode'):
-            d = d[:-7]
         m = re.match(r'^str\((.*)\)$', d)
         if m and m.group(1).count('(') == m.group(1).count(')'):
             d = m.group(1)
